@@ -82,6 +82,10 @@ fn alphabet() -> Vec<Tpl> {
         tpl("c = (() => do {\n return a = 4\n})()", Some("c"), &["c"], &["a", "c"]),
         tpl("f = () => (b = 1)", Some("f"), &["f"], &["b", "f"]),
         tpl("f()", None, &[], &["f"]),
+        // functions that keep a do-block-local name and escape / are called elsewhere
+        tpl("c = do {\n a = x => x * 2\n return [a]\n}", Some("c"), &["c"], &["a", "c"]),
+        tpl("c[0](5)", None, &[], &["c"]),
+        tpl("c = do {\n b = f\n return b(1)\n}", Some("c"), &["c"], &["b", "c", "f"]),
     ]
 }
 
@@ -315,12 +319,15 @@ fn random_template(r: &mut Rng, names: &[&str]) -> Tpl {
         17 => tpl(&format!("output {} = {}", x, k), Some(x), &[x], &[x]),
         18 => tpl(&format!("{} = nope_{}", x, k), Some(x), &[x], &[x]),
         19 => tpl(&format!("{} = ({} = {}) + nope", x, y, k), Some(x), &[x, y], &[x, y]),
-        20 => match r.below(6) {
+        20 => match r.below(9) {
+            6 => tpl(&format!("{}[0]({})", x, k), None, &[], &[x]),
+            7 => tpl(&format!("{} = do {{\n {} = {}\n return {}({})\n}}", x, y, z, y, k), Some(x), &[x], &[x, y, z]),
             0 => tpl(&format!("{} = do {{\n return {} = {}\n}}", x, y, k), Some(x), &[x], &[x, y]),
             1 => tpl(&format!("do {{\n return {} = {}\n}}", x, k), None, &[], &[x]),
             2 => tpl(&format!("do {{\n return 1 + ({} = {})\n}}", x, k), None, &[], &[x]),
             3 => tpl(&format!("(q => {} = q)({})", x, k), None, &[], &[x]),
             4 => tpl(&format!("[{}] where (q => ({} = q) > 0)", k, x), None, &[], &[x]),
+            5 => tpl(&format!("{} = do {{\n {} = q => q * 2\n return [{}]\n}}", x, y, y), Some(x), &[x], &[x, y]),
             _ => tpl(&format!("{} = sort(reverse([{}, {}, 3]))", x, k, k + 1), Some(x), &[x], &[x]),
         },
         _ => tpl(&format!("[{}, {}, {}]", x, y, z), None, &[], &[x, y, z]),
